@@ -171,6 +171,16 @@ def _fuzz(tier):
                   % (250 if tier == 'quick' else 2500, seed))
 
 
+def _fuzz_isolation(tier):
+    import os
+    from harness import fuzz_pipelines
+    seed = int(os.environ.get('VERIF_SEED', '0') or 0)
+    c, f = fuzz_pipelines.search_isolation(tier, seed)
+    return c, f, ('%d random pipelines (seed %d) over new() sources in pickle / copy / wu mode with dict / tuple / list / big-array '
+                  'examples, memory and disk caches inside; three twins: mutate after a pristine pass, mutate the originals right after '
+                  'construction, mutate at the first hand-out' % (400 if tier == 'quick' else 4000, seed))
+
+
 EXTRA_FUZZ = [('bounded-pipeline-fuzz', _fuzz)]
 
 EXTRA_MORE = {
@@ -180,7 +190,7 @@ EXTRA_MORE = {
     'C11': [('bounded-diskcache-kill-points', _mk('diskcache_kill_points', 'a forked child populating 12 examples is killed (SIGKILL) after 0, 20, 50, 90 ms (0..150 ms in 10 ms steps); reopen with reuse=True: all values correct, stored ones not recomputed')),
             ('bounded-diskcache-lifecycles', _mk('diskcache_lifecycles', 'cache_dir given / None x clear x {copy outlives original, original outlives copy, no copy} x {0, 2, all of 4 examples read}; release by garbage collection; reopen with reuse=False (refused) and reuse=True (no recomputation)'))],
     'C13': [('bounded-prefetch-determinism', _mk('parallel_equals_sequential', 'as for C04: seeded per-epoch reshuffles below prefetch / parallel map reproduce the sequential epochs'))],
-    'C09': [('bounded-snapshot-isolation', _mk('snapshot_isolation', 'from_dataset / new(src) / cache(lazy=False) of dict- and list-backed sources stored in pickle, copy, wu mode: isolated from later mutation of the original objects and of handed-out examples')),
+    'C09': [('bounded-isolation-fuzz', _fuzz_isolation), ('bounded-snapshot-isolation', _mk('snapshot_isolation', 'from_dataset / new(src) / cache(lazy=False) of dict- and list-backed sources stored in pickle, copy, wu mode: isolated from later mutation of the original objects and of handed-out examples')),
             ('bounded-isolation-more', _mk('isolation_more', 'example shapes dict / tuple / namedtuple / list with mutable parts; pickle, copy, wu, memory and disk cache; mutation inside a running first-epoch loop, over items(), through a copy, after an aborted epoch, after the next example was requested; re-read by iteration, index, copy')),
             ('bounded-isolation', _mk('isolation', 'new/from_list in pickle, copy, wu mode and memory/disk cache; 7 access paths, miss and hit, nested in-place mutations'))],
     'C10': [('bounded-cache-histories', _mk('cache_histories', 'all access histories of length 2 (3 thorough) over 17 operations on a 4-example cache with a freshly random upstream; memory threshold crossed after 0..4 stores'))],
